@@ -747,8 +747,8 @@ class BoolType(DataType):
         return repr(value)
 
     def compatible(self, other):
-        other(False)
-        other(True)
+        other.validate(False)
+        other.validate(True)
 
 
 Stub.fix_datatypes()
